@@ -55,6 +55,46 @@ def only_err_from(ctx, body, start):
     return not any(x in cfg.exits for x in r), r
 
 
+def _keep_table(ctx, v):
+    """The walk's `filter` closure on a small model (path-sensitive constant propagation, 3 cases): the entry
+    is Ok and a directory -> dropped; Ok and not a directory -> kept; a walker error -> kept (it is reported
+    downstream). True / False if every case has one constant answer, None if the model cannot follow."""
+    from engine import casewalk as CW
+    std = CW.std_hooks()
+    want = {("Ok", 1): 0, ("Ok", 0): 1, ("Err", 0): 1}
+    for (variant, isdir), keep in want.items():
+        def hook(w, bb, t, argv, env):
+            if callee_matches(t, r"^std::path::Path::is_dir$"):
+                return CW.const(isdir)
+            if callee_matches(t, r"^ignore::(walk::)?DirEntry::(path|into_path|file_type|metadata)$"):
+                return CW.sym("PATH")
+            return std(w, bb, t, argv, env)
+        w = CW.Walk(ctx, v, [hook], max_states=4000)
+        entry = CW.adt("std::result::Result", variant, 0 if variant == "Ok" else 1, [("0", CW.sym("ENTRY"))])
+        results = set()
+
+        def on_visit(bb, env):
+            tm = v.blocks[bb]["term"]
+            if tm and tm["k"] == "return":
+                results.add(env.get(0, CW.TOP))
+        w.on_visit = on_visit
+        env = {-9: entry}
+        # the closure's argument is `&Result<DirEntry, Error>` (filter hands out a reference)
+        env[2] = ("ref", -9, (), False)
+        try:
+            w.explore(0, env)
+        except CW.Limit:
+            return None
+        if len(results) != 1:
+            return None
+        r = results.pop()
+        if not CW.is_const(r):
+            return None
+        if int(r[1]) != keep:
+            return False
+    return True
+
+
 def check_walkfiles(ctx, out, rule="C12.walkfiles"):
     """The directory walk hands on every entry it gets from the `ignore` walker except directories:
     in `FileSystemImpl::walk` an entry is dropped (filter_map -> None / filter -> false) only when
@@ -114,6 +154,17 @@ def check_walkfiles(ctx, out, rule="C12.walkfiles"):
             found = True
         else:
             continue
+        if rty == "bool" and drops:
+            # filter closure: decided on the three-case model first (exact); the structural reading only
+            # when the model cannot follow the closure
+            verdict = _keep_table(ctx, v)
+            if verdict is True:
+                n += 1
+                continue
+            if verdict is False:
+                out.viol(rule, "%s|extra-skip" % rule, ctx.where(v, drops[0][1]),
+                         "the walk's filter does not keep exactly the entries that are not directories (case analysis over {Ok + directory, Ok + not a directory, walker error}): an entry that is not a directory, or a walker error, is dropped - or a directory is kept")
+                continue
         for bi, span, e in drops:
             if e is not None:
                 # filter closure: the kept-condition must be exactly !is_dir(path)
@@ -127,7 +178,12 @@ def check_walkfiles(ctx, out, rule="C12.walkfiles"):
                         else:
                             out.viol(rule, "%s|extra-skip" % rule, ctx.where(v, span), "the walk drops an entry for a reason other than `path.is_dir()`")
                 else:
-                    out.viol(rule, "%s|extra-skip" % rule, ctx.where(v, span), "the walk keeps an entry iff `%s`; expected `!path.is_dir()`" % render(e, 120))
+                    verdict = _keep_table(ctx, v)
+                    if verdict is True:
+                        n += 1
+                    else:
+                        out.viol(rule, "%s|extra-skip" % rule, ctx.where(v, span), "the walk keeps an entry iff `%s`%s; expected `!path.is_dir()`" % (render(e, 120), "" if verdict is None else " (case analysis: an entry that is not a directory, or a walker error, is dropped - or a directory is kept)"))
+                    break       # decided for the closure as a whole
                 continue
             gs = util.guards(ctx, v, bi)
             isdir = [g for g in gs if g[2][0] == "call" and re.search(ISDIR, g[2][1]) and 0 not in g[1]]
